@@ -58,6 +58,23 @@ def run_case(c, rng):
                 prev = L
                 pts.append([L, gnet._round(vol, 8)])
             spec['curves'][t['vol_curve']]['points'] = pts
+    # user time controls of any priority (an API feature: INP controls are all 'medium') at off-grid instants, on links away from
+    # the tanks: whatever they do to the step sequence, every tank still integrates its net inflow and stops at its limits.
+    # Side stream seeded by the case, so that the main stream stays what it was.
+    import random as _random
+    side = _random.Random(c.index * 7368787 + len(spec['pipes']) * 13 + len(spec['tanks']))
+    if side.random() < 0.45:
+        tank_names = set(t['name'] for t in spec['tanks'])
+        away = [p for p in spec['pipes'] if p['start'] not in tank_names and p['end'] not in tank_names and not p['cv']]
+        o_ = spec['options']
+        hyd_, n_ = o_['hydraulic_timestep'], max(1, o_['duration'] // o_['hydraulic_timestep'])
+        for k in range(side.randint(2, 6)):
+            if not away:
+                break
+            spec['controls'].append({'kind': 'time', 'name': 'u%d' % (k + 1), 'time': hyd_ * side.randint(0, n_ - 1) + side.randint(1, hyd_ - 1),
+                                     'target': side.choice(away)['name'], 'attr': 'status', 'value': side.choice(['CLOSED', 'OPEN', 'OPEN']),
+                                     'priority': side.choice([0, 1, 2, 3, 4, 5, 6])})
+        c.count('cases_with_prioritised_user_controls')
     wn = gnet.build(spec)
     sample = {'spec': spec}
     c.sample = {'spec_summary': gnet.signature(spec)}
